@@ -20,16 +20,17 @@ package expr
 //@ func hashObject
 //@   params o ignoreFields ignoreNames ignoreTags seen
 //@   property C13 C09
+//@   locals s:*string ok:bool h:string ph:*string a:*expr.NamedAttributeExpr k:string
 //@   opt maprange deterministic
 //   -- the attributes are visited in ascending name order whatever the declaration order (the slice ranged
 //   -- over is the result of sorted), and every visit appends exactly the attribute's name and the hash of
 //   -- its type computed with the same flags, between the separators
 //@   loop 1 invariant* sorted.input: forall i int, j int :: 0 <= i && i < j && j < len(ranged(1)) ==> !(ranged(1)[j].Name < ranged(1)[i].Name)
 //@   loop 1 invariant* all.attributes: o != nil ==> len(ranged(1)) == len(old(load(o)))
-//@   loop 1 invariant acc: ph != nil && sinceEntry(ph) && (rangeindex == 0 - 1 ==> load(ph) == objectPrefix)
-//@   loop 1 step* appends.name.and.type.hash: ignoreTags ==> load(ph) == prev(1, load(ph)) + attributePrefix + ranged(1)[rangeindex].Name + attributeTypePrefix + hashSpec(ranged(1)[rangeindex].Attribute.Type, ignoreFields, ignoreNames, ignoreTags)
-//@   loop 1 step* appends.name.and.type.hash.then.tags: hasPrefix(load(ph), prev(1, load(ph)) + attributePrefix + ranged(1)[rangeindex].Name + attributeTypePrefix + hashSpec(ranged(1)[rangeindex].Attribute.Type, ignoreFields, ignoreNames, ignoreTags))
-//@   loop 2 invariant tags.extend: ph != nil && sinceEntry(ph) && hasPrefix(load(ph), prev(1, load(ph)) + attributePrefix + ranged(1)[rangeindex].Name + attributeTypePrefix + hashSpec(ranged(1)[rangeindex].Attribute.Type, ignoreFields, ignoreNames, ignoreTags))
+//@   loop 1 invariant acc: ph != nil && sinceEntry(ph) && (rangeidx(1) == 0 - 1 ==> load(ph) == objectPrefix)
+//@   loop 1 step* appends.name.and.type.hash: ignoreTags ==> load(ph) == prev(1, load(ph)) + attributePrefix + ranged(1)[rangeidx(1)].Name + attributeTypePrefix + hashSpec(ranged(1)[rangeidx(1)].Attribute.Type, ignoreFields, ignoreNames, ignoreTags)
+//@   loop 1 step* appends.name.and.type.hash.then.tags: hasPrefix(load(ph), prev(1, load(ph)) + attributePrefix + ranged(1)[rangeidx(1)].Name + attributeTypePrefix + hashSpec(ranged(1)[rangeidx(1)].Attribute.Type, ignoreFields, ignoreNames, ignoreTags))
+//@   loop 2 invariant tags.extend: ph != nil && sinceEntry(ph) && hasPrefix(load(ph), prev(1, load(ph)) + attributePrefix + ranged(1)[rangeidx(1)].Name + attributeTypePrefix + hashSpec(ranged(1)[rangeidx(1)].Attribute.Type, ignoreFields, ignoreNames, ignoreTags))
 
 // Permutation invariance: the comparators handed to sort.Slice must order the slice being sorted
 // (the call-site precondition of sort.Slice, checked on the comparator's real body).
@@ -40,8 +41,8 @@ package expr
 //@   sortkey 1 e: e.Name
 //@   loop 1 invariant* sorted.input: forall i int, j int :: 0 <= i && i < j && j < len(ranged(1)) ==> !(ranged(1)[j].Name < ranged(1)[i].Name)
 //@   loop 1 invariant* all.alternatives: len(ranged(1)) == len(old(u.Values))
-//@   loop 1 invariant acc: rangeindex == 0 - 1 ==> h == unionTypePrefix + old(u.TypeName)
-//@   loop 1 step* appends.name.and.type.hash: h == prev(1, h) + unionAttributePrefix + ranged(1)[rangeindex].Name + unionAttributeTypePrefix + hashSpec(ranged(1)[rangeindex].Attribute.Type, ignoreFields, ignoreNames, ignoreTags)
+//@   loop 1 invariant acc: rangeidx(1) == 0 - 1 ==> h == unionTypePrefix + old(u.TypeName)
+//@   loop 1 step* appends.name.and.type.hash: h == prev(1, h) + unionAttributePrefix + ranged(1)[rangeidx(1)].Name + unionAttributeTypePrefix + hashSpec(ranged(1)[rangeidx(1)].Attribute.Type, ignoreFields, ignoreNames, ignoreTags)
 //@   ensures* result.is.accumulator: result != nil && sinceEntry(result)
 
 //@ func sorted
@@ -176,9 +177,9 @@ package expr
 //@   ensures* shape: len(result) == len(reqs) && (len(reqs) > 0 ==> fresh(result))
 //@   ensures* requirement: forall i int :: 0 <= i && i < len(reqs) ==> result[i] != nil && fresh(result[i]) && result[i].Scopes == old(reqs[i].Scopes) && len(result[i].Schemes) == len(old(reqs[i].Schemes))
 //@   loop 1 invariant outer: fresh(reqs2) && len(reqs2) == len(reqs) && reqs2.off == 0
-//@   loop 1 invariant outer.req: forall i int :: 0 <= i && i <= rangeindex ==> reqs2[i] != nil && fresh(reqs2[i]) && allocated(reqs2[i]) && allocated(reqs2[i].Schemes) && reqs2[i].Scopes == old(reqs[i].Scopes) && len(reqs2[i].Schemes) == len(old(reqs[i].Schemes)) && fresh(reqs2[i].Schemes)
-//@   loop 2 invariant inner: fresh(reqs2) && len(reqs2) == len(reqs) && reqs2.off == 0 && 0 <= i && i < len(reqs) && i == rangeindex && req == old(reqs[i]) && req2 != nil && fresh(req2) && allocated(req2) && allocated(schs) && req2.Scopes == old(reqs[i].Scopes) && fresh(schs) && schs.off == 0 && len(schs) == len(old(reqs[i].Schemes))
-//@   loop 2 invariant inner.sch: forall j int :: 0 <= j && j <= rangeindex#2 ==> schs[j] != nil && fresh(schs[j]) && allocated(schs[j]) && schs[j].Kind == old(reqs[i].Schemes[j].Kind) && schs[j].SchemeName == old(reqs[i].Schemes[j].SchemeName) && schs[j].Name == old(reqs[i].Schemes[j].Name) && schs[j].In == old(reqs[i].Schemes[j].In) && schs[j].Scopes == old(reqs[i].Schemes[j].Scopes)
+//@   loop 1 invariant outer.req: forall i int :: 0 <= i && i <= rangeidx(1) ==> reqs2[i] != nil && fresh(reqs2[i]) && allocated(reqs2[i]) && allocated(reqs2[i].Schemes) && reqs2[i].Scopes == old(reqs[i].Scopes) && len(reqs2[i].Schemes) == len(old(reqs[i].Schemes)) && fresh(reqs2[i].Schemes)
+//@   loop 2 invariant inner: fresh(reqs2) && len(reqs2) == len(reqs) && reqs2.off == 0 && 0 <= i && i < len(reqs) && i == rangeidx(1) && req == old(reqs[i]) && req2 != nil && fresh(req2) && allocated(req2) && allocated(schs) && req2.Scopes == old(reqs[i].Scopes) && fresh(schs) && schs.off == 0 && len(schs) == len(old(reqs[i].Schemes))
+//@   loop 2 invariant inner.sch: forall j int :: 0 <= j && j <= rangeidx(2) ==> schs[j] != nil && fresh(schs[j]) && allocated(schs[j]) && schs[j].Kind == old(reqs[i].Schemes[j].Kind) && schs[j].SchemeName == old(reqs[i].Schemes[j].SchemeName) && schs[j].Name == old(reqs[i].Schemes[j].Name) && schs[j].In == old(reqs[i].Schemes[j].In) && schs[j].Scopes == old(reqs[i].Schemes[j].Scopes)
 //@   loop 2 invariant keep.req: forall i2 int :: 0 <= i2 && i2 < i ==> reqs2[i2] != nil && fresh(reqs2[i2]) && allocated(reqs2[i2]) && allocated(reqs2[i2].Schemes) && reqs2[i2].Scopes == old(reqs[i2].Scopes) && len(reqs2[i2].Schemes) == len(old(reqs[i2].Schemes)) && fresh(reqs2[i2].Schemes)
 //   -- every scheme stored into a copied requirement is a fresh object carrying the kind, names and scopes of its source
 //@   at elemstore 1 assert* scheme.copied: index == j && slice == schs && value != nil && fresh(value) && value.Kind == old(reqs[i].Schemes[j].Kind) && value.SchemeName == old(reqs[i].Schemes[j].SchemeName) && value.Name == old(reqs[i].Schemes[j].Name) && value.In == old(reqs[i].Schemes[j].In) && value.Scopes == old(reqs[i].Schemes[j].Scopes)
@@ -233,6 +234,7 @@ package expr
 //@ func hash
 //@   params dt ignoreFields ignoreNames ignoreTags seen
 //@   property C13
+//@   locals n:string
 //   -- the one clause of the dispatcher that stays ASSUMED: the result is a function of the type and the flags
 //@   assumed functional: result != nil && load(result) == hashSpec(dt, ignoreFields, ignoreNames, ignoreTags)
 //   -- what is checked on its body: a primitive hashes to its name; every composite kind is handed to the hasher
@@ -315,6 +317,7 @@ package expr
 //@ func (*MethodExpr).Finalize
 //@   params m
 //@   property C06
+//@   locals rt:*expr.ResultTypeExpr ok:bool e:*expr.ErrorExpr found:bool f:*expr.ErrorExpr e#2:*expr.ErrorExpr noreq:bool r:*expr.SecurityExpr s:*expr.SchemeExpr
 //@   requires m != nil && m.Service != nil && Root != nil && Root.API != nil
 //@   requires reqsWF(m.Requirements) && reqsWF(m.Service.Requirements) && reqsWF(Root.API.Requirements)
 //@   let own = old(m.Requirements)
@@ -327,8 +330,8 @@ package expr
 //@   ensures* unsecured: len(own) == 0 && len(svc) == 0 && len(api) == 0 ==> len(m.Requirements) == 0
 //   -- merging the service errors may append in place to the method's own error list
 //@   loop 1 modifies elems(*ErrorExpr)
-//@   loop 4 invariant scan: !noreq && (forall i int, j int :: 0 <= i && i <= rangeindex#4 && 0 <= j && j < len(own[i].Schemes) ==> own[i].Schemes[j].Kind != NoKind)
-//@   loop 5 invariant scan.schemes: !noreq && 0 <= rangeindex#4 && rangeindex#4 < len(own) && r == own[rangeindex#4] && (forall j int :: 0 <= j && j <= rangeindex#5 ==> r.Schemes[j].Kind != NoKind) && (forall i int, j int :: 0 <= i && i < rangeindex#4 && 0 <= j && j < len(own[i].Schemes) ==> own[i].Schemes[j].Kind != NoKind)
+//@   loop 4 invariant scan: !noreq && (forall i int, j int :: 0 <= i && i <= rangeidx(4) && 0 <= j && j < len(own[i].Schemes) ==> own[i].Schemes[j].Kind != NoKind)
+//@   loop 5 invariant scan.schemes: !noreq && 0 <= rangeidx(4) && rangeidx(4) < len(own) && r == own[rangeidx(4)] && (forall j int :: 0 <= j && j <= rangeidx(5) ==> r.Schemes[j].Kind != NoKind) && (forall i int, j int :: 0 <= i && i < rangeidx(4) && 0 <= j && j < len(own[i].Schemes) ==> own[i].Schemes[j].Kind != NoKind)
 
 //@ func (*Object).Attribute
 //@   params o name
@@ -373,7 +376,7 @@ package expr
 //   -- own = ranged(3): the errors the method maps itself, as they stand when the inheritance pass starts
 //@   at fieldstore HTTPEndpointExpr.HTTPErrors assert* own.mapping.wins: forall i int :: 0 <= i && i < len(ranged(3)) ==> ranged(3)[i].Name != value[len(value) - 1].Name
 //@   at fieldstore HTTPEndpointExpr.HTTPErrors assert* table.only.grows: len(value) == len(object.HTTPErrors) + 1 && (forall i int :: 0 <= i && i < len(object.HTTPErrors) ==> value[i] == object.HTTPErrors[i])
-//@   loop 3 invariant collected: ranged(3).arr <= alloc() && methodErrors != nil && (forall i int :: 0 <= i && i <= rangeindex#3 ==> inMap(methodErrors, ranged(3)[i].Name))
+//@   loop 3 invariant collected: ranged(3).arr <= alloc() && methodErrors != nil && (forall i int :: 0 <= i && i <= rangeidx(3) ==> inMap(methodErrors, ranged(3)[i].Name))
 //@   loop 4 invariant own.in.M: methodErrors != nil && (forall i int :: 0 <= i && i < len(ranged(3)) ==> inMap(methodErrors, ranged(3)[i].Name))
 //@   loop 5 invariant not.own: methodErrors != nil && (forall i int :: 0 <= i && i < len(ranged(3)) ==> inMap(methodErrors, ranged(3)[i].Name) && ranged(3)[i].Name != me.Name)
 //@   loop 6 invariant not.own: methodErrors != nil && (forall i int :: 0 <= i && i < len(ranged(3)) ==> inMap(methodErrors, ranged(3)[i].Name) && ranged(3)[i].Name != me.Name)
@@ -415,7 +418,7 @@ package expr
 //@   let fs = old(load(fields))
 //@   ensures* every.field.numbered: result != nil && (len(result.Errors) == 0 ==> forall i int :: 0 <= i && i < len(fs) && !isUnionSpec(old(fs[i].Attribute.Type)) ==> hasRPCTag(old(fs[i].Attribute)))
 //@   ensures* no.number.twice: len(result.Errors) == 0 ==> forall i int, j int :: 0 <= i && i < j && j < len(fs) && !isUnionSpec(old(fs[i].Attribute.Type)) && !isUnionSpec(old(fs[j].Attribute.Type)) ==> rpcTagOf(old(fs[i].Attribute)) != rpcTagOf(old(fs[j].Attribute))
-//@   loop 1 invariant seen: verr != nil && sinceEntry(verr) && foundRPC != nil && sinceEntry(foundRPC) && (verr.Errors.arr == 0 || sinceEntry(verr.Errors)) && (verr.Expressions.arr == 0 || sinceEntry(verr.Expressions)) && ranged(1) == fs && (len(verr.Errors) == 0 ==> (forall i int :: 0 <= i && i <= rangeindex && !isUnionSpec(fs[i].Attribute.Type) ==> hasRPCTag(fs[i].Attribute) && inMap(foundRPC, rpcTagOf(fs[i].Attribute))) && (forall i int, j int :: 0 <= i && i < j && j <= rangeindex && !isUnionSpec(fs[i].Attribute.Type) && !isUnionSpec(fs[j].Attribute.Type) ==> rpcTagOf(fs[i].Attribute) != rpcTagOf(fs[j].Attribute)))
+//@   loop 1 invariant seen: verr != nil && sinceEntry(verr) && foundRPC != nil && sinceEntry(foundRPC) && (verr.Errors.arr == 0 || sinceEntry(verr.Errors)) && (verr.Expressions.arr == 0 || sinceEntry(verr.Expressions)) && ranged(1) == fs && (len(verr.Errors) == 0 ==> (forall i int :: 0 <= i && i <= rangeidx(1) && !isUnionSpec(fs[i].Attribute.Type) ==> hasRPCTag(fs[i].Attribute) && inMap(foundRPC, rpcTagOf(fs[i].Attribute))) && (forall i int, j int :: 0 <= i && i < j && j <= rangeidx(1) && !isUnionSpec(fs[i].Attribute.Type) && !isUnionSpec(fs[j].Attribute.Type) ==> rpcTagOf(fs[i].Attribute) != rpcTagOf(fs[j].Attribute)))
 //@   modifies nothing
 
 // ---- mapped attributes: attribute name <-> wire name (C02, C03) ----------------------------------
@@ -450,6 +453,7 @@ package expr
 //@   modifies nothing
 //@ func (*MappedAttributeExpr).Remap
 //@   params ma
+//@   locals n:*expr.Object o:*expr.Object nat:*expr.NamedAttributeExpr elems:[]string
 //@   opt loopframes none
 //@   property C02
 //   -- "att:elem" records att -> elem in one table and elem -> att in the other, from the same split
@@ -471,7 +475,7 @@ package expr
 //@   ensures* absent.afterwards: old(distinctNames(load(o))) ==> forall i int :: 0 <= i && i < len(after) ==> after[i].Name != n
 //@   ensures* others.stay: (forall i int :: 0 <= i && i < len(before) ==> old(before[i].Name) != n) ==> len(after) == len(before) && (forall i int :: 0 <= i && i < len(before) ==> after[i] == old(before[i]))
 //@   ensures* one.removed: (exists i int :: 0 <= i && i < len(before) && old(before[i].Name) == n) ==> len(after) == len(before) - 1
-//@   loop 1 invariant scan: index == 0 - 1 && ranged(1) == before && (forall i int :: 0 <= i && i <= rangeindex ==> before[i].Name != n)
+//@   loop 1 invariant scan: index == 0 - 1 && ranged(1) == before && (forall i int :: 0 <= i && i <= rangeidx(1) ==> before[i].Name != n)
 //@   modifies cell(o), elems(load(o))
 //@ func (*ValidationExpr).RemoveRequired
 //@   params v required
@@ -480,7 +484,7 @@ package expr
 //@   let before = old(v.Required)
 //@   ensures* absent.afterwards: (forall i int, j int :: 0 <= i && i < j && j < len(before) ==> old(before[i]) != old(before[j])) ==> forall i int :: 0 <= i && i < len(v.Required) ==> v.Required[i] != required
 //@   ensures* others.stay: (forall i int :: 0 <= i && i < len(before) ==> old(before[i]) != required) ==> len(v.Required) == len(before) && (forall i int :: 0 <= i && i < len(before) ==> v.Required[i] == old(before[i]))
-//@   loop 1 invariant scan: ranged(1) == before && v.Required == before && (forall i int :: 0 <= i && i <= rangeindex ==> before[i] != required)
+//@   loop 1 invariant scan: ranged(1) == before && v.Required == before && (forall i int :: 0 <= i && i <= rangeidx(1) ==> before[i] != required)
 //@   modifies v.Required, elems(v.Required)
 // removeAttribute: the attribute is gone from the body object and from its required list (wire-name tables
 // and examples are updated by calls that are not specified here).
